@@ -115,28 +115,21 @@ func ParseDenomFromSendPacket(packet transfertypes.FungibleTokenPacketData) stri
 //	        -> Remove Prefix: transfer/channel-Z/ujuno
 //	        -> Hash:          ibc/...
 func ParseDenomFromRecvPacket(packet channeltypes.Packet, packetData transfertypes.FungibleTokenPacketData) string {
-	sourcePort := packet.SourcePort
-	sourceChannel := packet.SourceChannel
+	// Parse the denom exactly as ICS-20 does on receive (see transfer keeper OnRecvPacket): the path on the wire is
+	// parsed first, and only then is the source hop removed or the destination hop added. Parsing after the hop has
+	// been prepended to the string can split a base denom such as "gamm/pool-1" into an extra hop, in which case
+	// the rate limit would be charged to a denom that ICS-20 never mints.
+	denom := transfertypes.ExtractDenomFromPath(packetData.Denom)
 
-	// To determine the denom, first check whether Stride is acting as source
-	// Build the source prefix and check if the denom starts with it
-	hop := transfertypes.NewHop(sourcePort, sourceChannel)
-	sourcePrefix := hop.String() + "/"
-
-	if strings.HasPrefix(packetData.Denom, sourcePrefix) {
-		// Remove the source prefix (e.g. transfer/channel-X/transfer/channel-Z/ujuno -> transfer/channel-Z/ujuno)
-		unprefixedDenom := packetData.Denom[len(sourcePrefix):]
-
-		// Native assets will have an empty trace path and can be returned as is
-		denom := transfertypes.ExtractDenomFromPath(unprefixedDenom)
+	if denom.HasPrefix(packet.GetSourcePort(), packet.GetSourceChannel()) {
+		// The chain is acting as source: remove the source hop (e.g. transfer/channel-X/transfer/channel-Z/ujuno -> transfer/channel-Z/ujuno)
+		// Native assets will have an empty trace and are returned as is
+		denom.Trace = denom.Trace[1:]
 		return denom.IBCDenom()
 	}
-	// Prefix the destination channel - this will contain the trailing slash (e.g. transfer/channel-X/)
-	destinationPrefix := transfertypes.NewHop(packet.GetDestPort(), packet.GetDestChannel())
-	prefixedDenom := destinationPrefix.String() + "/" + packetData.Denom
 
-	// Hash the denom trace
-	denom := transfertypes.ExtractDenomFromPath(prefixedDenom)
+	// The chain is acting as sink: add the destination hop and hash the denom trace
+	denom.Trace = append([]transfertypes.Hop{transfertypes.NewHop(packet.GetDestPort(), packet.GetDestChannel())}, denom.Trace...)
 	return denom.IBCDenom()
 }
 
